@@ -5,6 +5,7 @@ CONSTANTS
   Periods <- PeriodsA
   MaxNow = 5
   EnvOps = {"stop", "kill", "abort", "busy"}
+  Stalls = {}
   VirtualClock = TRUE
   Instant = FALSE
   UnstartedKillsInterval = TRUE
